@@ -8,6 +8,7 @@ import Lox.LR.DrvJustify
 import Lox.LR.DrvGenModel
 import Lox.LR.DrvConflict
 import Lox.LR.DrvConstruct
+import Lox.LR.DrvEmit
 import Lox.Lex.Drv
 import Lox.Lex.DrvRuntime
 import Lox.Lex.DrvGen
@@ -17,6 +18,7 @@ import Lox.Dec.DrvTerminals
 import Lox.Dec.DrvAssign
 import Lox.Dec.DrvAnalyze
 import Lox.Dec.DrvFrontText
+import Lox.Dec.DrvContainers
 /-! Line-protocol driver: one case per input line `area.op payload`, one answer per output line.
 Core-only imports so that this links as a `lean_exe`. -/
 
@@ -29,9 +31,9 @@ def dispatch (line : String) : String :=
   let r := match area with
     | "rang3" => Lox.Rang3.handle op payload
     | "table" => Lox.Table.handle op payload
-    | "lr" => ((((((Lox.LR.handle op payload).orElse fun _ => Lox.LR.handleDesugar op payload).orElse fun _ => Lox.LR.Rt.handleRecovery op payload).orElse fun _ => Lox.LR.handleJustify op payload).orElse fun _ => Lox.LR.Gen.handleGenModel op payload).orElse fun _ => Lox.LR.handleConflict op payload).orElse fun _ => Lox.LR.Cons.handleConstruct op payload
+    | "lr" => (((((((Lox.LR.handle op payload).orElse fun _ => Lox.LR.handleDesugar op payload).orElse fun _ => Lox.LR.Rt.handleRecovery op payload).orElse fun _ => Lox.LR.handleJustify op payload).orElse fun _ => Lox.LR.Gen.handleGenModel op payload).orElse fun _ => Lox.LR.handleConflict op payload).orElse fun _ => Lox.LR.Cons.handleConstruct op payload).orElse fun _ => Lox.LR.Emit.handleEmit op payload
     | "lex" => (((Lox.Lex.handle op payload).orElse fun _ => Lox.Lex.Rt.handleRuntime op payload).orElse fun _ => Lox.Lex.Gen.handleGen op payload).orElse fun _ => Lox.Lex.Gen.handleEmit op payload
-    | "dec" => ((((Lox.Dec.handle op payload).orElse fun _ => Lox.Dec.Terminals.handleTerminals op payload).orElse fun _ => Lox.Dec.Assign.handleAssign op payload).orElse fun _ => Lox.Dec.Analyze.handleAnalyze op payload).orElse fun _ => Lox.Dec.FrontText.handleFrontText op payload
+    | "dec" => (((((Lox.Dec.handle op payload).orElse fun _ => Lox.Dec.Terminals.handleTerminals op payload).orElse fun _ => Lox.Dec.Assign.handleAssign op payload).orElse fun _ => Lox.Dec.Analyze.handleAnalyze op payload).orElse fun _ => Lox.Dec.FrontText.handleFrontText op payload).orElse fun _ => Lox.Dec.Containers.handleContainers op payload
     | _ => none
   r.getD "bad-op"
 
